@@ -1,19 +1,51 @@
-(** A whole FramebufferUpdate whose rectangles use Raw, CopyRect, RRE or CoRRE in any mix (C02): every
+(** A whole FramebufferUpdate whose rectangles use Raw, CopyRect, RRE, CoRRE or Hextile in any mix (C02): every
     rectangle is consumed exactly, produces exactly its callbacks in order, the last one is followed by
     exactly one commit, and the client then reads what follows as the next message. *)
 From Coq Require Import ZArith List Bool Lia.
 From RecordUpdate Require Import RecordSet.
 Import RecordSetNotations.
 From VD Require Import Base.Bytes Base.BytesP Base.Struct Gen.Tables Gen.Formats.
-From VD Require Import Model.Engine Model.ClientMsgs Model.Auth Model.Rfb Spec.C2S Proofs.C2SP Proofs.DecodeP Proofs.RreP.
+From VD Require Import Model.Engine Model.ClientMsgs Model.Auth Model.Rfb Spec.C2S Proofs.C2SP Proofs.DecodeP Proofs.RreP Proofs.HextileP.
 Import ListNotations.
 Open Scope Z_scope.
+
+(** Cursor pseudo-encoding (7.8.1): w*h pixels and a bitmask of floor((w+7)/8)*h bytes; exactly one
+    updateCursor(x, y, w, h, image, mask) *)
+Definition CURSOR_ENC : bytes := [255; 255; 255; 17].     (* -239 *)
+
+Theorem cursor_roundtrip s x y w h img mask tail s2 p2 es2 es r n :
+  u16ok x -> u16ok y -> u16ok w -> u16ok h ->
+  rects s <> 0 ->
+  let s1 := enter_rect s x y w h in
+  len img = w * h * bypp s1 -> len mask = (w + 7) / 8 * h ->
+  do_connection s1 = Ok s2 (Some p2) es2 ->
+  Drain s2 p2 tail es r n ->
+  Drain s PRect (rect_hdr x y w h CURSOR_ENC ++ (img ++ mask) ++ tail) ([ECursor x y w h img mask] ++ es2 ++ es) r (S (S n)).
+Proof.
+  intros Hx Hy Hw Hh Hr s1 Hi Hm Hd HD. subst s1. unfold enter_rect in *.
+  destruct (rect_hdr_unpack x y w h CURSOR_ENC ((img ++ mask) ++ tail) Hx Hy Hw Hh eq_refl) as [Ht Hun].
+  change ([ECursor x y w h img mask] ++ es2 ++ es) with ([] ++ ([ECursor x y w h img mask] ++ es2) ++ es).
+  eapply D_step; [exact Ht| |].
+  - cbn [step]. rewrite Hun. change (to_s32 (be_dec CURSOR_ENC)) with (-239).
+    change (-239 =? ENC_PSEUDO_LAST_RECT) with false. cbv iota.
+    destruct (Z.eqb_spec (rects s) 0) as [E|_]; [contradiction|].
+    change (-239 =? ENC_COPY_RECTANGLE) with false. change (-239 =? ENC_RAW) with false.
+    change (-239 =? ENC_HEXTILE) with false. change (-239 =? ENC_CORRE) with false. change (-239 =? ENC_RRE) with false.
+    change (-239 =? ENC_ZRLE) with false. change (-239 =? ENC_PSEUDO_CURSOR) with true. cbv iota. reflexivity.
+  - cbn [next_pend]. eapply D_step.
+    + cbn [need]. match goal with |- take ?k _ = _ => replace k with (len (img ++ mask)) by (rewrite len_app, Hi, Hm; reflexivity) end.
+      apply take_app_exact.
+    + cbn [step]. rewrite <- Hi, firstn_len_app, skipn_len_app, Hd. cbn [prepend]. reflexivity.
+    + cbn [next_pend]. exact HD.
+Qed.
 
 Inductive qspec :=
 | QRaw (x y w h : Z) (px : bytes)
 | QCopy (x y w h sx sy : Z)
 | QRre (x y w h : Z) (bg : bytes) (subs : list sub)
-| QCorre (x y w h : Z) (bg : bytes) (subs : list sub).
+| QCorre (x y w h : Z) (bg : bytes) (subs : list sub)
+| QHextile (x y w h : Z) (ts : list htile)
+| QCursor (x y w h : Z) (img mask : bytes).
 
 Definition qwire (q : qspec) : bytes :=
   match q with
@@ -21,6 +53,8 @@ Definition qwire (q : qspec) : bytes :=
   | QCopy x y w h sx sy => rect_hdr x y w h [0; 0; 0; 1] ++ be_enc 2 sx ++ be_enc 2 sy
   | QRre x y w h bg subs => wire_rre x y w h bg subs
   | QCorre x y w h bg subs => wire_corre x y w h bg subs
+  | QHextile x y w h ts => wire_hextile x y w h ts
+  | QCursor x y w h img mask => rect_hdr x y w h CURSOR_ENC ++ img ++ mask
   end.
 
 Definition qevents (q : qspec) : list ev :=
@@ -28,17 +62,20 @@ Definition qevents (q : qspec) : list ev :=
   | QRaw x y w h px => [EUpd x y w h px]
   | QCopy x y w h sx sy => [ECopy sx sy x y w h]
   | QRre x y w h bg subs | QCorre x y w h bg subs => [EFill x y w h bg] ++ map fill_ev (map (sub_fill x y) subs)
+  | QHextile x y w h ts => tiles_events x y w h ts x y None None
+  | QCursor x y w h img mask => [ECursor x y w h img mask]
   end.
 
 (* handler invocations the rectangle costs *)
 Definition qsteps (q : qspec) : nat :=
   match q with
-  | QRaw _ _ _ _ _ | QCopy _ _ _ _ _ _ => 2
+  | QRaw _ _ _ _ _ | QCopy _ _ _ _ _ _ | QCursor _ _ _ _ _ _ => 2
   | QRre _ _ _ _ _ subs | QCorre _ _ _ _ _ subs => match subs with [] => 2 | _ => 3 end
+  | QHextile _ _ _ _ ts => S (tiles_steps ts)
   end.
 
 Definition qpos (q : qspec) : rect :=
-  match q with QRaw x y w h _ | QCopy x y w h _ _ | QRre x y w h _ _ | QCorre x y w h _ _ => (x, y, w, h) end.
+  match q with QRaw x y w h _ | QCopy x y w h _ _ | QRre x y w h _ _ | QCorre x y w h _ _ | QHextile x y w h _ | QCursor x y w h _ _ => (x, y, w, h) end.
 
 Definition qok (s : st) (q : qspec) : Prop :=
   match q with
@@ -50,6 +87,11 @@ Definition qok (s : st) (q : qspec) : Prop :=
   | QCorre x y w h bg subs =>
       u16ok x /\ u16ok y /\ u16ok w /\ u16ok h /\ len bg = bypp s /\ len subs < 4294967296 /\
       Forall (sub8_ok (bypp s)) subs /\ fill_ok s (x, y, w, h, bg) /\ Forall (fill_ok s) (map (sub_fill x y) subs)
+  | QHextile x y w h ts =>
+      u16ok x /\ u16ok y /\ u16ok w /\ u16ok h /\ 0 < w /\ 0 < h /\ 0 < bypp s /\
+      covers x y w h ts x y /\ tiles_ok s x y w h ts x y None None
+  | QCursor x y w h img mask =>
+      u16ok x /\ u16ok y /\ u16ok w /\ u16ok h /\ len img = w * h * bypp s /\ len mask = (w + 7) / 8 * h
   end.
 
 Lemma fill_ok_enter s x y w h f : fill_ok (enter_rect s x y w h) f <-> fill_ok s f.
@@ -65,7 +107,7 @@ Theorem rect_roundtrip q s tail s2 p2 es2 es r n :
   Drain s2 p2 tail es r n ->
   Drain s PRect (qwire q ++ tail) (qevents q ++ es2 ++ es) r (qsteps q + n).
 Proof.
-  intros Hq Hr Hbp Hd HD. destruct q as [x y w h px|x y w h sx sy|x y w h bg subs|x y w h bg subs];
+  intros Hq Hr Hbp Hd HD. destruct q as [x y w h px|x y w h sx sy|x y w h bg subs|x y w h bg subs|x y w h ts|x y w h img mask];
     cbn [qok qwire qevents qsteps qpos] in *; specialize (Hd x y w h eq_refl).
   - destruct Hq as (Hx & Hy & Hw & Hh & Hl & Hu). rewrite <- app_assoc.
     apply (raw_roundtrip s x y w h px tail s2 p2 es2 es r n Hx Hy Hw Hh Hr); assumption.
@@ -75,6 +117,11 @@ Proof.
     apply (rre_roundtrip s x y w h bg subs tail s2 p2 es2 es r n Hx Hy Hw Hh Hr Hbp); assumption.
   - destruct Hq as (Hx & Hy & Hw & Hh & Hbg & Hn & Hs & Hf0 & Hfs). rewrite <- app_assoc.
     apply (corre_roundtrip s x y w h bg subs tail s2 p2 es2 es r n Hx Hy Hw Hh Hr Hbp); assumption.
+  - destruct Hq as (Hx & Hy & Hw & Hh & Pw & Ph & Pb & Hc & Ht).
+    replace (S (tiles_steps ts) + n)%nat with (S (tiles_steps ts + n)) by lia.
+    apply (hextile_roundtrip s x y w h ts tail s2 p2 es2 es r n Hx Hy Hw Hh Pw Ph Hr Pb); try assumption.
+  - destruct Hq as (Hx & Hy & Hw & Hh & Hi & Hm). rewrite <- app_assoc.
+    apply (cursor_roundtrip s x y w h img mask tail s2 p2 es2 es r n Hx Hy Hw Hh Hr); assumption.
 Qed.
 
 Definition after_qrects (s : st) (rs : list qspec) : st :=
